@@ -26,7 +26,12 @@ def curOf (b : List (Nat × Nat)) (epoch : Nat) : List (Nat × Nat) := b.filter 
 
 /-- `X` when the code's behaviour is what the property asks for, `X #spec Y #kf D45` when events of a previous
 deployment are involved (finding D45) -/
-def withSpec (x y : String) : String := if x == y then x else s!"{x} #spec {y} #kf D45"
+def withSpecId (x y id : String) : String := if x == y then x else s!"{x} #spec {y} #kf {id}"
+
+def withSpec (x y : String) : String := withSpecId x y "D45"
+
+/-- the code-side part of an output line -/
+def plain (str : String) : String := (str.splitOn " #spec ").headD str
 
 def flushedSuffix (b : List (Nat × Nat)) : String := if b.isEmpty then "" else s!" flushed={tagsOf b}"
 
@@ -55,6 +60,11 @@ def render : Out → String
   | .barMismatch => "mismatch"
   | .barBlocked => "blocked"
   | .barNotReady => "notready"
+  | .tickRead ops => s!"read o={ids ops}"
+  | .ckptCreated n => s!"created {n}"
+  | .noTick => "notick"
+  | .published n cur => s!"published {n} cur={optNat cur}"
+  | .nothing => "nothing"
   | .evQueued => "queued"
   | .processed b e => withSpec s!"processed {tagsOf b}" s!"processed {tagsOf (curOf b e)}"
   | .flushEmpty => "empty"
@@ -69,7 +79,7 @@ def showState (s : St) : String :=
     | none => none
   let bats := (List.range 10).filterMap fun i =>
     if (s.procs i).batch.isEmpty then none else some s!"{i}:{tagsOf (s.procs i).batch}"
-  s!"{showStatus s.status} reg=o{ids s.ops}:s{ids s.srs} asm=o{ids s.asmOps}:s{ids s.asmSrs} pend={pend} cur={optNat s.store.current} tick={if s.ticker then 1 else 0} rec={if recs.isEmpty then "-" else joinWith ";" recs} bat={if bats.isEmpty then "-" else joinWith ";" bats}"
+  s!"{showStatus s.status} reg=o{ids s.ops}:s{ids s.srs} asm=o{ids s.asmOps}:s{ids s.asmSrs} pend={pend} cur={optNat s.store.current} wr={ids s.store.writing} tick={if s.ticker then 1 else 0} rec={if recs.isEmpty then "-" else joinWith ";" recs} bat={if bats.isEmpty then "-" else joinWith ";" bats}"
 
 def parse : List String → Option Act
   | ["reg", "o", i] => some (.regO (natOr i))
@@ -85,6 +95,9 @@ def parse : List String → Option Act
   | ["bar", i, s, id] => some (.bar (natOr i) (natOr s) (natOr id))
   | ["ev", i, s, tag] => some (.ev (natOr i) (natOr s) (natOr tag))
   | ["flush", i] => some (.flush (natOr i))
+  | ["ticka"] => some .tickA
+  | ["tickb"] => some .tickB
+  | ["tickc"] => some .tickC
   | _ => none
 
 /-- driver state: the model state plus what the real-worker ops need to know about worker processes (which exist,
@@ -93,6 +106,7 @@ structure DSt where
   s : St
   started : List Nat := []
   gone : List Nat := []
+  hold : Bool := false   -- `holdpub`: snapshot files are not written until `relpub`
 
 def DSt.live (d : DSt) (k : Nat) : Bool := d.started.contains k && !d.gone.contains k
 
@@ -136,14 +150,49 @@ def deployReal (d : DSt) : DSt × String :=
   | some v, _ => let (s', o) := step d.s (.deployFail v); ({ d with s := s' }, render o)
   | none, some v => let (s', o) := step d.s (.deployFail (d.s.asmOps.length + v)); ({ d with s := s' }, render o)
 
+/-- Finding D56, checked in the driver so that the tag is only used in the recorded situation: operator `i` holds an
+alignment record that is not the job's pending checkpoint (a stale barrier created it, or its acknowledgement was
+refused), and the barrier now arriving has a higher id, or repeats the id of a completed refused record. The property
+asks that the stale record does not stand in the way: the answer of an operator without it. -/
+def d56Spec (s : St) (i sr id : Nat) : Option String :=
+  let pr := s.procs i
+  if !pr.deployed then none else
+  match pr.inflight with
+  | none => none
+  | some (rid, w) =>
+    let stale := match s.store.pending with
+      | none => true
+      | some p => p.id != rid
+    if stale && (rid < id || (rid == id && w.isEmpty)) then
+      some (plain (render (barrier { s with procs := setProc s.procs i { pr with inflight := none } } i sr id).2))
+    else none
+
+/-- Finding D57: the ticker callback continues after the job left the assembly it read (paused, or already on a new
+assembly). With the callback on the task queue it would have run before the pause or not at all. -/
+def d57Situation (s : St) : Bool :=
+  match s.tk with
+  | some t => t.start.isNone && (s.status != .running || t.ops != s.asmOps)
+  | none => false
+
 def two (d : DSt) (a b : Act) : DSt × String :=
   let (s1, o1) := step d.s a
   let (s2, o2) := step s1 b
   ({ d with s := s2 }, render o1 ++ " ; " ++ render o2)
 
-def stepLine (d : DSt) (ws : List String) : DSt × String :=
+/-- unless the harness holds the storage, the file of a completed snapshot is written at once -/
+def settlePub (d : DSt) : DSt :=
+  if d.hold then d else { d with s := d.s.store.writing.foldl (fun s n => (step s (.publish n)).1) d.s }
+
+def stepLine0 (d : DSt) (ws : List String) : DSt × String :=
   match ws with
   | ["st"] => (d, showState d.s)
+  | ["holdpub"] => ({ d with hold := true }, "ok")
+  | ["relpub"] =>
+      let ns := d.s.store.writing
+      let s' := ns.foldl (fun s n => (step s (.publish n)).1) d.s
+      ({ d with hold := false, s := s' },
+       if ns.isEmpty then "nothing" else s!"published {ids ns} cur={optNat s'.store.current}")
+  | ["raceprobe", _] => (d, "ok")  -- concurrency probe for the -race build of the harness; ends its case
   | ["hbxn", _, _] => (d, "ok")  -- the same statement at nanosecond resolution around the deadline
   | ["hbx", _, _] => (d, "ok")   -- spec: C15.heartbeat_expiry_exact, evaluated on the real LivenessTracker
   | ["wstart", k] =>
@@ -159,8 +208,24 @@ def stepLine (d : DSt) (ws : List String) : DSt × String :=
   | ["rack", k] => rack d (natOr k)
   | _ =>
     match parse ws with
+    | some (.bar i sr id) =>
+      let (s', o) := step d.s (.bar i sr id)
+      let x := render o
+      let line := if x != plain x then x else
+        match d56Spec d.s i sr id with
+        | some y => withSpecId x y "D56"
+        | none => x
+      ({ d with s := s' }, line)
+    | some .tickB =>
+      let (s', o) := step d.s .tickB
+      let x := render o
+      ({ d with s := s' }, if d57Situation d.s && x != "notick" then withSpecId x "stopped" "D57" else x)
     | some a => let (s', o) := step d.s a; ({ d with s := s' }, render o)
     | none => (d, "bad-op")
+
+def stepLine (d : DSt) (ws : List String) : DSt × String :=
+  let (d', o) := stepLine0 d ws
+  (settlePub d', o)
 
 def handle (lines : Array String) (i : Nat) (out : Array String) : Nat × Array String :=
   let st₀ := match words (lines.getD (i - 1) "") with
